@@ -192,7 +192,7 @@ type vfC02Rep struct {
 	gotJ, gotL, gotJ2 bool
 }
 
-func vfC02Plan(s *Serf, tag string, j, l, j2 LamportTime, hasLeave, down, rejoin, coarse bool) *vfC02Rep {
+func vfC02Plan(s *Serf, tag string, j, l, j2 LamportTime, hasLeave, down, rejoin, coarse, ordered bool) *vfC02Rep {
 	r := &vfC02Rep{s: s, j: j, l: l, j2: j2, down: down, rejoin: rejoin}
 	r.nnotes = 1
 	if down {
@@ -204,6 +204,13 @@ func vfC02Plan(s *Serf, tag string, j, l, j2 LamportTime, hasLeave, down, rejoin
 	// position p: delivered after p notifications; nnotes+1: lost. A coarse plan delivers late (after all
 	// notifications) or never.
 	pos := func(name string) int {
+		if ordered {
+			// every intent right after the notification it belongs to: join and leave while x is up, the second join after x is back
+			if name == ".posJ2" {
+				return 3
+			}
+			return 1
+		}
 		if coarse {
 			return r.nnotes + vfChoice(tag+name, 2)
 		}
@@ -288,7 +295,7 @@ func vfC02Sync(from, to *Serf) {
 //
 //vf:unwind 16
 //vf:paths quick=400000 thorough=6000000
-//vf:bound scenario 2 replicas, 1 subject; quick: join, optional leave, optional down, optional state sync before the down; thorough: additionally re-join after down (then the second replica receives each intent after all notifications or never); each intent delivered <=1x per replica at any point, lost at most at one replica; 2 final sync rounds; times symbolic (j < l < j2 < 2^62)
+//vf:bound scenario 2 replicas, 1 subject; quick: join, optional leave, optional down, optional state sync before the down, optional re-join with every intent delivered in order; thorough: additionally re-join after down (then the second replica receives each intent after all notifications or never); each intent delivered <=1x per replica at any point, lost at most at one replica; 2 final sync rounds; times symbolic (j < l < j2 < 2^62)
 //vf:stub codec -> identity on tokens
 //vf:outside more than two replicas; duplicate delivery to the same replica (covered as a step by VfC02_StepIntent); memberlist notifications out of causal order
 func VfC02_Sync2() {
@@ -300,13 +307,15 @@ func VfC02_Sync2() {
 	hasLeave := vfBool("hasLeave")
 	down := vfBool("down")
 	rejoin := false
-	if down && vfTier() == 1 {
+	if down {
 		rejoin = vfBool("rejoin")
 	}
+	// quick tier: the re-join scenario only with every intent delivered in order at both replicas
+	ordered := rejoin && vfTier() == 0
 	// with a re-join there are three intents and four delivery points: replica b then only gets each intent late
 	// or never (260 000 paths in 50 min did not finish the full product)
-	ra := vfC02Plan(a, "a", LamportTime(j), LamportTime(l), LamportTime(j2), hasLeave, down, rejoin, false)
-	rb := vfC02Plan(b, "b", LamportTime(j), LamportTime(l), LamportTime(j2), hasLeave, down, rejoin, rejoin)
+	ra := vfC02Plan(a, "a", LamportTime(j), LamportTime(l), LamportTime(j2), hasLeave, down, rejoin, false, ordered)
+	rb := vfC02Plan(b, "b", LamportTime(j), LamportTime(l), LamportTime(j2), hasLeave, down, rejoin, rejoin, ordered)
 	// loss is recovered by state sync only if somebody has the information
 	vfAssume(ra.gotJ || rb.gotJ)
 	vfAssume(!hasLeave || ra.gotL || rb.gotL)
